@@ -31,6 +31,9 @@ def step (s : St) (line : String) : St × List String :=
   match words line with
   | [] => (s, [])
   | "case" :: rest => ({}, [String.intercalate " " ("case" :: rest)])
+  | ["exists"] =>
+    -- is the disk file still there? (`Remove` = unlink; the model's `removed` flag is what it means)
+    (s, [s!"ram:- disk:{if s.disk.removed then "x0" else "x1"}"])
   | ws =>
     match parseOp ws with
     | none => (s, ["bad-op"])
